@@ -59,6 +59,9 @@ def networks(tier, seed):
     # the signed routines are documented for networks that happen to have no negative weights too
     for i, g in enumerate(und[1::4]):
         out.append((g, 'signed', ['real', 'int', 'bin'][i % 3], i))
+    # signed integer weights that cancel exactly: the total weight of the network is 0 (any normalisation by it is 0/0)
+    for i, g in enumerate(und[::2]):
+        out.append((g, 'signed', 'zerosum', i))
     # connection COUNTS: integer dtype, total weight far above 2**31
     for i, g in enumerate(und[2::5]):
         out.append((g, 'und', 'counts', i))
@@ -84,6 +87,15 @@ def build_net(g, kind, w, ws, selfw=False):
         ko, ki = W.sum(1).astype(float), W.sum(0).astype(float)
         if ko.max() * ki.max() >= 2.0 ** 62:
             W = (W // 8).astype(np.int64)
+        return W
+    if w == 'zerosum':
+        W = G.weigh(A, 'signedint', ws, symmetric=True)
+        i, j = np.where(np.triu(A, 1))
+        half = int(np.triu(W, 1).sum())
+        for e in range(len(i)):        # shift one connection so that the upper triangle (hence the matrix) sums to 0
+            if W[i[e], j[e]] - half != 0:
+                W[i[e], j[e]] = W[j[e], i[e]] = W[i[e], j[e]] - half
+                break
         return W
     if w in ('faintneg', 'faintpos', 'alltiny'):
         rs = np.random.RandomState(ws + 3)
